@@ -512,6 +512,9 @@ def oracle_fails(pid, op, orc, op_core=None):
         v = bad("rb")
         if v and re.search(r"tx-weight", v):
             out.append("rb=" + v)
+        # a valid transaction (the reference decoder accepts it) that is rejected has no weight reported at all
+        if v and "rust-bitcoin-accepts" in v and op.startswith("visit tx n "):
+            out.append("rb=" + v + " (valid transaction: no weight is reported)")
     elif pid == "C17":
         v = bad("rb")
         if v and re.search(r"iterator|into_iter", v):
